@@ -117,6 +117,7 @@ func newWorldAt(kind, dir, name string, reopen bool) (*World, error) {
 	w.scopes["c1"] = [2]string{"s1", "a"}
 	w.scopes["c2"] = [2]string{"s1", "b"}
 	w.scopes["c3"] = [2]string{"s1", "c"} // not created until a program asks for it (mkcoll)
+	w.scopes["c4"] = [2]string{"s2", "a"} // same collection name as c1, in another scope
 	for _, c := range []string{"c0", "c1", "c2"} {
 		if _, err := w.openColl(c, "h0"); err != nil {
 			return nil, err
